@@ -105,12 +105,12 @@ NullChainAt(j) ==
   Item("nullchain", MkDoc([Default("legacy", <<36, j>>) EXCEPT !["chainId"] = IF j = 1 THEN NNull ELSE Absent]), j)
 
 \* every character U+0001..U+00FF in the place of the first digit of a hexadecimal and of a decimal quantity string
-NEveryChar == 2 * 255
+NEveryChar == 2 * NTryChars
 EveryCharAt(j) ==
-  LET cp == 1 + ((j - 1) % 255)
+  LET cp == TryChar(1 + ((j - 1) % NTryChars))
       sl == Slots[1 + (j % Len(Slots))]
       base == Default(sl[1], <<33, j % 5>>)
-      txt == IF j <= 255 THEN "0x" \o CpsToStr(<<cp>>) \o "1" ELSE CpsToStr(<<cp>>) \o "1"
+      txt == IF j <= NTryChars THEN "0x" \o CpsToStr(<<cp>>) \o "1" ELSE CpsToStr(<<cp>>) \o "1"
   IN  Item("every_character", MkDoc([base EXCEPT ![sl[2]] = NStr(txt)]), j)
 O1 == NIntDocs
 O2 == O1 + NMalformed
@@ -125,6 +125,7 @@ ItemAt(g) ==
   ELSE IF g <= O4 THEN NullChainAt(g - O3)
   ELSE IF g <= O5 THEN EveryCharAt(g - O4)
   ELSE BadPresenceAt(g - O5)
+Histories == IF "VERIF_TIER" \in DOMAIN IOEnv /\ IOEnv.VERIF_TIER = "thorough" THEN 300 ELSE 40
 VARIABLE n
 INSTANCE GenBase
 =============================================================================
